@@ -500,7 +500,7 @@ func (g *FnGen) indexAddr(i *ssa.IndexAddr) {
 		g.safety("index", fmt.Sprintf("(and %s %s)", g.sle(z, idx), g.slt(idx, slen(x.T))), "slice index in range", i.Pos())
 		fam, sort := g.elemFam(u.Elem())
 		g.famInit(fam, sort)
-		g.vals[i] = Val{T: "0", S: "Int", GT: i.Type(), Addr: &Addr{Fam: fam, Ref: sref(x.T), Idx: g.add(soff(x.T), idx), T: u.Elem()}}
+		g.vals[i] = Val{T: g.interiorPtr(), S: "Int", GT: i.Type(), Addr: &Addr{Fam: fam, Ref: sref(x.T), Idx: g.add(soff(x.T), idx), T: u.Elem()}}
 	case *types.Pointer:
 		arr := u.Elem().Underlying().(*types.Array)
 		g.safety("index", fmt.Sprintf("(and %s %s)", g.sle(z, idx), g.slt(idx, g.ilit64(arr.Len()))), "array index in range", i.Pos())
@@ -512,7 +512,7 @@ func (g *FnGen) indexAddr(i *ssa.IndexAddr) {
 				// root holds the array value itself
 			}
 			na.T = arr.Elem()
-			g.vals[i] = Val{T: "0", S: "Int", GT: i.Type(), Addr: &na}
+			g.vals[i] = Val{T: g.interiorPtr(), S: "Int", GT: i.Type(), Addr: &na}
 			return
 		}
 		fam, sort := g.elemFam(arr.Elem())
@@ -521,7 +521,7 @@ func (g *FnGen) indexAddr(i *ssa.IndexAddr) {
 		if x.Addr != nil {
 			ref = x.Addr.Ref
 		}
-		g.vals[i] = Val{T: "0", S: "Int", GT: i.Type(), Addr: &Addr{Fam: fam, Ref: ref, Idx: idx, T: arr.Elem()}}
+		g.vals[i] = Val{T: g.interiorPtr(), S: "Int", GT: i.Type(), Addr: &Addr{Fam: fam, Ref: ref, Idx: idx, T: arr.Elem()}}
 	default:
 		g.unsupported("IndexAddr on %s", i.X.Type())
 	}
@@ -536,7 +536,7 @@ func (g *FnGen) fieldAddr(i *ssa.FieldAddr) {
 		na := *x.Addr
 		na.Path = append(append([]pathStep{}, x.Addr.Path...), pathStep{field: i.Field, st: st})
 		na.T = ft
-		g.vals[i] = Val{T: "0", S: "Int", GT: i.Type(), Addr: &na}
+		g.vals[i] = Val{T: g.interiorPtr(), S: "Int", GT: i.Type(), Addr: &na}
 		return
 	}
 	ref := x.T
@@ -545,7 +545,7 @@ func (g *FnGen) fieldAddr(i *ssa.FieldAddr) {
 	}
 	fam, sort, _ := g.fieldFam(st, i.Field)
 	g.famInit(fam, sort)
-	g.vals[i] = Val{T: "0", S: "Int", GT: i.Type(), Addr: &Addr{Fam: fam, Ref: ref, T: ft}}
+	g.vals[i] = Val{T: g.interiorPtr(), S: "Int", GT: i.Type(), Addr: &Addr{Fam: fam, Ref: ref, T: ft}}
 }
 
 func (g *FnGen) alloc(i *ssa.Alloc) {
@@ -849,4 +849,11 @@ func (g *FnGen) locCovers(env *Env, loc Expr, a *Addr) string {
 		return "false"
 	}
 	return "false"
+}
+
+// interiorPtr: the (non-nil) value of an interior pointer (&x.f, &a[i]); only its address descriptor is used for memory access.
+func (g *FnGen) interiorPtr() string {
+	n := g.fresh("iptr", "Int")
+	g.assume(fmt.Sprintf("(> %s 0)", n))
+	return n
 }
